@@ -116,6 +116,19 @@ func (c *pconn) push(frame []byte) {
 }
 
 func (c *pconn) Close() error {
+	c.env.mu.Lock()
+	hold := c.env.holdClose
+	gateC := c.env.closeGate
+	c.env.mu.Unlock()
+	if hold {
+		c.env.mu.Lock()
+		c.env.parkedClose++
+		c.env.mu.Unlock()
+		select {
+		case <-gateC:
+		case <-time.After(3 * time.Second):
+		}
+	}
 	c.mu.Lock()
 	first := !c.closed
 	if first {
@@ -154,25 +167,31 @@ type pcall struct {
 	err     error
 	reply   []byte
 	connID  int
+	doneAt  int
 	carried bool
 	t0, t1  time.Time
 }
 
 type poolEnv struct {
-	mu        sync.Mutex
-	t         *rpc.Transport
-	conns     []*pconn
-	up        map[string]bool
-	open      map[string]int // currently open sockets per address
-	maxOpen   map[string]int
-	openAtDial []string
-	dials     int
-	dialFails int
-	calls     map[int]*pcall
-	holdCall  map[int]bool
-	closedBusy []string // C15: a socket was closed while a call was outstanding on it
-	wg        sync.WaitGroup
+	mu                sync.Mutex
+	t                 *rpc.Transport
+	conns             []*pconn
+	up                map[string]bool
+	open              map[string]int // currently open sockets per address
+	maxOpen           map[string]int
+	openAtDial        []string
+	dials             int
+	dialFails         int
+	calls             map[int]*pcall
+	holdCall          map[int]bool
+	closedBusy        []string // C15: a socket was closed while a call was outstanding on it
+	wg                sync.WaitGroup
 	maxConns, maxIdle int
+	transportClosed   bool
+	holdClose         bool
+	closeGate         chan struct{}
+	parkedClose       int
+	nowait            map[int]bool
 }
 
 func (e *poolEnv) noteCarried(k int, c *pconn) {
@@ -190,7 +209,7 @@ func (e *poolEnv) noteClose(c *pconn) {
 	nheld := len(c.held)
 	dead := c.dead
 	c.mu.Unlock()
-	if nheld > 0 && !dead {
+	if nheld > 0 && !dead && !e.transportClosed {
 		e.closedBusy = append(e.closedBusy, fmt.Sprintf("conn %d (%s) closed with %d unanswered call(s)", c.id, c.addr, nheld))
 	}
 	e.mu.Unlock()
@@ -228,14 +247,15 @@ func (s poolScenario) header() string {
 }
 
 func newPoolEnv(sc poolScenario) *poolEnv {
-	e := &poolEnv{up: map[string]bool{"A": true, "B": true, "C": true}, open: map[string]int{}, maxOpen: map[string]int{}, calls: map[int]*pcall{}, holdCall: map[int]bool{}}
+	e := &poolEnv{up: map[string]bool{"A": true, "B": true, "C": true}, open: map[string]int{}, maxOpen: map[string]int{}, calls: map[int]*pcall{}, holdCall: map[int]bool{},
+		closeGate: make(chan struct{}), nowait: map[int]bool{}}
 	e.t = &rpc.Transport{MaxConnsPerHost: sc.MaxConns, MaxIdleConnsPerHost: sc.MaxIdle, KeepAlive: poolKeepAlive, IdleConnTimeout: poolIdleTO, Dial: e.dial}
 	e.t.VerifSetTicker(poolTick)
 	return e
 }
 
 func (e *poolEnv) startCall(k int, addr, form string, hold bool) {
-	pc := &pcall{k: k, addr: addr, form: form, connID: -1, t0: time.Now()}
+	pc := &pcall{k: k, addr: addr, form: form, connID: -1, doneAt: -1, t0: time.Now()}
 	e.mu.Lock()
 	e.calls[k] = pc
 	e.holdCall[k] = hold
@@ -364,6 +384,25 @@ func runPoolScenario(sc poolScenario) *poolResult {
 			e.startCall(atoi(f[2]), f[1], f[0], false)
 		case "long":
 			e.startCall(atoi(f[2]), f[1], "call", true)
+		case "callnb":
+			e.mu.Lock()
+			e.nowait[atoi(f[2])] = true
+			e.mu.Unlock()
+			e.startCall(atoi(f[2]), f[1], "call", false)
+			time.Sleep(2 * time.Millisecond)
+		case "holdclose":
+			e.mu.Lock()
+			e.holdClose = true
+			e.mu.Unlock()
+		case "relclose":
+			e.mu.Lock()
+			e.holdClose = false
+			close(e.closeGate)
+			e.closeGate = make(chan struct{})
+			for k := range e.nowait {
+				delete(e.nowait, k)
+			}
+			e.mu.Unlock()
 		case "finish":
 			ok = e.finishCall(atoi(f[1]))
 		case "kill":
@@ -392,6 +431,9 @@ func runPoolScenario(sc poolScenario) *poolResult {
 		case "closeidle":
 			e.t.CloseIdleConnections()
 		case "close":
+			e.mu.Lock()
+			e.transportClosed = true
+			e.mu.Unlock()
 			e.t.Close()
 		default:
 			ok = false
@@ -405,7 +447,7 @@ func runPoolScenario(sc poolScenario) *poolResult {
 			e.mu.Lock()
 			busy := false
 			for k, c := range e.calls {
-				if !c.done && !e.holdCall[k] {
+				if !c.done && !e.holdCall[k] && !e.nowait[k] {
 					busy = true
 				}
 				if !c.done && e.holdCall[k] && !c.carried {
@@ -422,12 +464,22 @@ func runPoolScenario(sc poolScenario) *poolResult {
 		time.Sleep(300 * time.Microsecond)
 		res.actions = append(res.actions, a)
 		res.obs = append(res.obs, e.observe())
+		e.mu.Lock()
+		for _, c := range e.calls {
+			if c.done && c.doneAt < 0 {
+				c.doneAt = len(res.actions) - 1
+			}
+		}
+		e.mu.Unlock()
 	}
 	return res
 }
 
 func (e *poolEnv) finish() {
 	e.mu.Lock()
+	e.holdClose = false
+	close(e.closeGate)
+	e.closeGate = make(chan struct{})
 	for k := range e.holdCall {
 		e.holdCall[k] = false
 	}
@@ -439,6 +491,9 @@ func (e *poolEnv) finish() {
 	for _, k := range ks {
 		e.finishCall(k)
 	}
+	e.mu.Lock()
+	e.transportClosed = true
+	e.mu.Unlock()
 	e.t.Close()
 	for _, c := range e.conns {
 		c.kill()
@@ -450,6 +505,25 @@ func (e *poolEnv) finish() {
 	case <-time.After(3 * time.Second):
 	}
 	gate.SettleAllowSleep(time.Second)
+}
+
+// countPooled: connections listed for addr in the active and idle parts of an observation.
+func countPooled(obs, addr string) int {
+	n := 0
+	for _, key := range []string{"active=[", "idle=["} {
+		i := strings.Index(obs, key)
+		if i < 0 {
+			continue
+		}
+		j := strings.Index(obs[i:], "]")
+		for _, part := range strings.Fields(obs[i+len(key) : i+j]) {
+			kv := strings.SplitN(part, ":", 2)
+			if kv[0] == addr && len(kv) == 2 && kv[1] != "" {
+				n += len(strings.Split(kv[1], ","))
+			}
+		}
+	}
+	return n
 }
 
 // ---- monitors ----
@@ -498,8 +572,9 @@ func checkPool(sc poolScenario, r *poolResult) []connVerdict {
 			add("C14", "right-address", "C14/wrong-server", fmt.Sprintf("call %d for %s was answered by %q", k, c.addr, string(c.reply[:min(len(c.reply), 8)])))
 		}
 	}
-	// a connection on which a call failed with ErrShutdown is never handed to a later call
-	failedOn := map[int]int{} // conn id -> action index of the first failure
+	// recovery: once the server is reachable again, calls to it fail with ErrShutdown at most once
+	// per connection that was pooled for it at that moment (each dead connection is discarded
+	// by the failure it causes), whatever the spacing of the calls
 	startAt := map[int]int{}
 	for i, a := range r.actions {
 		f := strings.Fields(a)
@@ -513,23 +588,36 @@ func checkPool(sc poolScenario, r *poolResult) []connVerdict {
 		ks = append(ks, k)
 	}
 	sort.Ints(ks)
-	for _, k := range ks {
-		c := e.calls[k]
-		if c.done && c.err == rpc.ErrShutdown && c.connID >= 0 {
-			if _, seen := failedOn[c.connID]; !seen {
-				failedOn[c.connID] = startAt[k]
+	for i, a := range r.actions {
+		f := strings.Fields(a)
+		if f[0] != "revive" {
+			continue
+		}
+		addr := f[1]
+		pooled := countPooled(r.obs[i], addr)
+		end := len(r.actions)
+		for j := i + 1; j < len(r.actions); j++ {
+			if r.actions[j] == "kill "+addr || r.actions[j] == "close" {
+				end = j
+				break
 			}
+		}
+		fails := 0
+		for _, k := range ks {
+			c := e.calls[k]
+			if c.addr == addr && startAt[k] > i && startAt[k] < end && c.done && c.doneAt < end && c.err == rpc.ErrShutdown {
+				fails++
+			}
+		}
+		if fails > pooled {
+			add("C14", "recovers-after-restart", "C14/no-recovery", fmt.Sprintf("after %s came back (action %d) %d calls to it failed with ErrShutdown although only %d connection(s) were pooled for it", addr, i, fails, pooled))
 		}
 	}
+	// while a server is unreachable and nothing is pooled for it, calls fail with ErrDial
 	for _, k := range ks {
 		c := e.calls[k]
-		if c.connID >= 0 {
-			if fi, bad := failedOn[c.connID]; bad && startAt[k] > fi {
-				add("C14", "dead-connection-not-reused", "C14/dead-conn-reused", fmt.Sprintf("call %d was handed connection %d on which an earlier call had failed with ErrShutdown", k, c.connID))
-			}
-		}
-		if c.done && !e.up[c.addr] && false {
-			_ = c
+		if c.done && c.err != nil && c.err != rpc.ErrShutdown && c.err != rpc.ErrDial {
+			add("C14", "error-kinds", "C14/unexpected-error", fmt.Sprintf("call %d to %s failed with %v", k, c.addr, c.err))
 		}
 	}
 	for _, s := range e.closedBusy {
@@ -552,6 +640,7 @@ func poolCorpus() []poolScenario {
 	mk("busy-spared", 2, 2, "long A 1", "idle medium", "closeidle", "idle long", "closeidle", "finish 1", "idle long")
 	mk("closeidle", 3, 3, "long A 1", "long A 2", "long A 3", "finish 2", "closeidle", "finish 1", "finish 3", "idle medium", "closeidle", "call A 4")
 	mk("multi-addr", 2, 1, "call A 1", "call B 2", "call C 3", "long A 4", "long A 5", "long B 6", "kill B", "call B 7", "finish 4", "finish 5", "idle medium", "revive B", "call B 8", "call A 9", "idle long", "close", "close")
+	mk("close-gated-replacement", 1, 1, "call A 1", "kill A", "revive A", "holdclose", "callnb A 2", "callnb A 3", "relclose", "call A 4")
 	mk("forms", 2, 2, "go A 1", "rt A 2", "ping A 3", "call A 4", "kill A", "go A 5", "rt A 6", "ping A 7", "revive A", "go A 8", "rt A 9", "ping A 10", "call A 11")
 	return out
 }
@@ -670,7 +759,7 @@ func runPool(dir string, seed uint64, tier, only, replay string) *rep.Report {
 		}
 		return rp
 	}
-	parentLoop("pool", dir, len(scs), []string{"-out", dir, "-seed", fmt.Sprint(seed), "-tier", tier}, rp, []string{"p"}, []string{"C13"}, 30*time.Second)
+	parentLoopN("pool", dir, len(scs), []string{"-out", dir, "-seed", fmt.Sprint(seed), "-tier", tier}, rp, []string{"p"}, []string{"C13"}, 30*time.Second, 12)
 	return rp
 }
 
